@@ -55,4 +55,15 @@ assigned through `self` and therefore lives in its `__dict__` — the only thing
 (`c19_save_body`, `c19_load_body`).  A setting kept as a class-level default would silently stay behind in the receiving object. -/
 theorem c19_state_in_dict : Gen.PersistText.class_data_attrs = [] := by decide
 
+/-- every path through a model's `__init__` creates the SAME instance attributes: whichever way the saved model and the receiving model
+were constructed (with or without a pre-computed distance file), the saved `__dict__` has every key the receiver's has, so
+`__dict__.update` overwrites all of the receiver's own settings and none of them survives into the loaded model. -/
+theorem c19_init_paths_same_attrs :
+    ∀ e ∈ Gen.PersistText.init_branches, e.2.1 = e.2.2 := by decide
+
+/-- non-vacuity: the branch on `pre_computed_distance` in `OPF.__init__` is among them, and both sides set the flag and the matrix. -/
+theorem c19_init_branch_opf :
+    ∃ e ∈ Gen.PersistText.init_branches, e.2.1 = ["pre_computed_distance", "pre_distances"] ∧ e.2.2 = ["pre_computed_distance", "pre_distances"] := by
+  decide
+
 end Opf
